@@ -279,15 +279,15 @@ def run(F, tier, res):
     # ---------- DEPTH: collisions are avoided by comparing palette STRINGS; that is sound only while different strings are painted as different
     # colours. The 24-bit -> 256-colour reduction is many-to-one, so the blame colour must be parsed at full depth whatever --true-color says
     nd = okd = 0
-    for i, c in F.calls(bm):
+    for (bq, i, c) in [(q_, i_, c_) for q_ in sorted(F.fn_bodies) if 'handlers::blame' in q_ for i_, c_ in F.calls(q_)]:
         if not callee_of(c).endswith('::parse_color') or len(c['args']) < 2:
             continue
         nd += 1
-        lits = F.operand_literals(bm, c['args'][1])
-        if lits and all(v == ('bool', True) for v in lits) and not any(r[0] in ('param', 'call') for r in F.trace(bm, c['args'][1])):
+        lits = F.operand_literals(bq, c['args'][1])
+        if lits and all(v == ('bool', True) for v in lits) and not any(r[0] in ('param', 'call') for r in F.trace(bq, c['args'][1])):
             okd += 1
         else:
-            res.violate('DEPTH', 'fn=%s' % bm, 'the blame colour is parsed at the configured colour depth instead of full depth: two palette entries that differ as strings '
+            res.violate('DEPTH', 'fn=%s' % bq, 'the blame colour is parsed at the configured colour depth instead of full depth: two palette entries that differ as strings '
                         '(which is what the collision test compares) can be painted as the same 256-colour cell, so adjacent commits get the same colour', where=F.span_of_call(c))
     res.rule('C17.DEPTH', nd, 1, 'colour parses in the blame style function: colour depth argument is the constant true', discharged=okd)
     # ---------- REGEX
